@@ -288,6 +288,13 @@ def check(case, ctx):
         out = pycaption.WebVTTWriter().write(cs, **kw)
         cues = parsers.parse_webvtt(out)
         want = texts.get(case['lang'], []) if case['lang'] else texts[langs[0]]
+        if not case['lang'] and not want:
+            # no language named and the first one is empty: which language is written then is open, but it is
+            # one language, whole
+            got0 = [' '.join(c['lines']) for c in cues]
+            if any(got0 == texts[l] for l in langs):
+                ctx.count('webvtt_default_language_with_empty_first')
+                return fails
         if case['lang'] and case['lang'] not in langs:
             ctx.count('webvtt_lang_absent')
         got = [' '.join(c['lines']) for c in cues]
